@@ -99,16 +99,17 @@ theorem C_eval_sub {te te' : C.TyEnv} (hs : Sub te te') (s : Store) (m : C.Mode)
   induction e with
   | int n => simp only [C.eval]
   | bool b => simp only [C.eval]
+  | str t => simp only [C.eval]
   | var x => simp only [C.eval]
   | bin op a b iha ihb =>
     simp only [Expr.wt, Bool.and_eq_true] at h
-    simp only [C.eval, iha h.1, ihb h.2]
+    simp only [C.eval, iha h.1.1, ihb h.1.2]
   | neg a iha =>
     simp only [Expr.wt, Bool.and_eq_true] at h
     simp only [C.eval, iha h.1]
   | cmp op a b iha ihb =>
     simp only [Expr.wt, Bool.and_eq_true] at h
-    simp only [C.eval, iha h.1, ihb h.2]
+    simp only [C.eval, iha h.1.1.1, ihb h.1.1.2]
   | and a b iha ihb =>
     simp only [Expr.wt, Bool.and_eq_true] at h
     simp only [C.eval, iha h.1.1.1, ihb h.1.1.2]
@@ -116,14 +117,14 @@ theorem C_eval_sub {te te' : C.TyEnv} (hs : Sub te te') (s : Store) (m : C.Mode)
     simp only [Expr.wt, Bool.and_eq_true] at h
     simp only [C.eval, iha h.1.1.1, ihb h.1.1.2]
   | not a iha =>
-    simp only [Expr.wt] at h
-    simp only [C.eval, iha h]
+    simp only [Expr.wt, Bool.and_eq_true] at h
+    simp only [C.eval, iha h.1]
   | ite c a b ihc iha ihb =>
     have h0 := h
     simp only [Expr.wt, Bool.and_eq_true] at h
     have ht : C.typeOf te' (.ite c a b) = C.typeOf te (.ite c a b) := by
       rw [typeOf_eq_inferTy te' _ (wt_sub hs _ h0).1, typeOf_eq_inferTy te _ h0, (wt_sub hs _ h0).2]
-    simp only [C.eval, ihc h.1.1.1, iha h.1.1.2, ihb h.1.2, ht]
+    simp only [C.eval, ihc h.1.1.1.1, iha h.1.1.1.2, ihb h.1.1.2, ht]
   | abs a iha =>
     simp only [Expr.wt] at h
     simp only [C.eval, iha h]
@@ -133,6 +134,9 @@ theorem C_eval_sub {te te' : C.TyEnv} (hs : Sub te te') (s : Store) (m : C.Mode)
     have ht : C.typeOf te' (.mm k a b) = C.typeOf te (.mm k a b) := by
       rw [typeOf_eq_inferTy te' _ (wt_sub hs _ h0).1, typeOf_eq_inferTy te _ h0, (wt_sub hs _ h0).2]
     simp only [C.eval, iha h.1.1.1, ihb h.1.1.2, ht]
+  | toStr a iha =>
+    simp only [Expr.wt, Bool.and_eq_true] at h
+    simp only [C.eval, iha h.1]
 
 /-! ### Python side -/
 
@@ -150,7 +154,7 @@ theorem evalList_length {s : Store} : ∀ {es : List Expr} {vs : List Val}, Py.e
 /-- the temporaries `k, k+1, …` hold the converted values `vs` -/
 def Held (sc : Store) : Nat → List Ty → List Val → Prop
   | _, [], [] => True
-  | k, t :: ts, v :: vs => sc.get (tmpName k) = some (C.conv t v) ∧ (t = .bool → ∃ b, v = .bool b) ∧ Held sc (k + 1) ts vs
+  | k, t :: ts, v :: vs => sc.get (tmpName k) = some (C.conv t v) ∧ t.holds v = true ∧ Held sc (k + 1) ts vs
   | _, _, _ => False
 
 theorem Held_congr {sc sc' : Store} (h : ∀ j, sc'.get (tmpName j) = sc.get (tmpName j)) :
@@ -209,8 +213,7 @@ theorem declTemps_sim (te0 : C.TyEnv) (sp : Store) :
           exact get_set_ne _ _ (hx k (Nat.le_refl k))
         · rw [hfr (tmpName k) (fun j hj => tmpName_ne (by omega))]
           exact get_set_eq _ _ _
-        · intro ht
-          exact bool_val te0 sp sc hrel e v hwe ht hv
+        · exact typed_val te0 sp sc hrel e v hwe hv
       · right; exact hd
     · right; exact ub_bind _ hc
 
